@@ -333,3 +333,34 @@ def _proj_eq(term, entry, idx):
     if isinstance(t, tuple) and t[0] == 'f' and t[2] == idx and strip_payload(t[1]) == strip_payload(entry):
         return True
     return False
+
+
+def it3(ctx, flavours):
+    """IT3: node iterators rely on next() alone -- or, if they override other Iterator methods, those can neither panic
+    (arithmetic on a cursor that may exceed a list that shrank meanwhile) nor hold a guard across user code"""
+    F = ctx.F
+    out = []
+    for fl in flavours:
+        for im in F.impls:
+            if im['trait'] != 'std::iter::Iterator' or not NODE_ITERS.search(im['self_q']) or not im['self_q'].startswith(fl + '::'):
+                continue
+            extra = [q for q in im['items'] if q.split('::')[-1] != 'next' and q in F.bodies]
+            if not extra:
+                out.append(Obl('IT3', im['self_q'], im['span'], 'iterator defines next() only (provided methods are derived from it)', True, 'ok'))
+                continue
+            for q in extra:
+                b = F.bodies[q]
+                bad = []
+                for bi, bb in enumerate(b['blocks']):
+                    if bb['cleanup']:
+                        continue
+                    t = bb['term']
+                    if t['k'] == 'assert' and re.search(r'Sub|Div|Rem|BoundsCheck|Neg', t.get('msg', '')):
+                        bad.append('%s@%s' % (t.get('msg', '')[:30], t['sp']))
+                    if t['k'] == 'call' and (PANICKY.match(callee_name(t)) or PANICKY.match(t['callee'])) and not callee_name(t).startswith('std::cell::RefCell::'):
+                        if t['args'] and t['args'][0].get('k') in ('move', 'copy') and any(ty['k'] == 'adt' and ty['p'] == 'std::sync::PoisonError' for ty in F.ty_walk(b['locals'][t['args'][0]['pl']['l']])):
+                            continue
+                        bad.append('%s@%s' % (callee_name(t).split('::')[-1], t['sp']))
+                out.append(Obl('IT3', q, b['span'], 'overridden %s cannot panic when the list changed under the cursor' % q.split('::')[-1], not bad,
+                               'ok' if not bad else 'panic site(s): ' + ', '.join(bad) + ' (the cursor may exceed the current list length after a removal)'))
+    return out
